@@ -6,6 +6,7 @@ ROOT = os.path.dirname(os.path.dirname(os.path.abspath(__file__)))
 pref = sys.argv[1] if len(sys.argv) > 1 and not sys.argv[1].startswith("--") else ""
 own_only = "--own" in sys.argv          # check only the property the change breaks (faster)
 skip = [a[len("--skip="):] for a in sys.argv if a.startswith("--skip=")]
+only = [a[len("--only="):] for a in sys.argv if a.startswith("--only=")]
 missed = []
 for mp in sorted(glob.glob(os.path.join(ROOT, "seeded", pref + "*", "meta.json"))):
     m = json.load(open(mp))
@@ -13,13 +14,14 @@ for mp in sorted(glob.glob(os.path.join(ROOT, "seeded", pref + "*", "meta.json")
     props = m.get("properties_checked") or [m["breaks_property"]]
     if own_only and m.get("breaks_property"): props = [m["breaks_property"]]
     if any(k in sid for k in skip): continue
+    if only and not any(k in sid for k in only): continue
     d = os.path.dirname(mp)
     out = subprocess.run(["python3", os.path.join(ROOT, "tools", "try_mutant.py"), d, sid] + props + ["--skip-confirm"],
                          capture_output=True, text=True).stdout
     m2 = json.load(open(mp))
-    own = m2["breaks_property"]
+    own = m2.get("breaks_property") or sid.split("-")[0]
     r = m2["check_results"].get(own, {})
     ok = r.get("exit", 0) != 0
-    print(sid, "CAUGHT" if ok else "MISSED", [p for p, x in m2["check_results"].items() if x["exit"] != 0])
+    print(sid, "CAUGHT" if ok else "MISSED", [p for p, x in m2["check_results"].items() if x["exit"] != 0], flush=True)
     if not ok: missed.append(sid)
 print("missed:", missed)
